@@ -19,5 +19,6 @@ def explore(ctx, prop):
     ctx.assumptions = ['linearity + data-obliviousness: agreement on the impulse basis implies agreement on every input (field ops exact by C01; no data-dependent branches in the transform code)',
                        'w_n is Goldilocks::w(log2 n); the 33-row root table is checked for primitivity and consistency first',
                        'sizes above the bound are not enumerated; every schedule shape (pass counts 1..log2 D, clamping on both sides, parity of passes, block remainders) occurs within it']
-    ctx.run_step('ntt_cfg', ctx.bins['ntt_cfg'], ['--prop', prop], timeout=max(60, ctx.time_left()))
+    ctx.bounds['mined literals'] = ctx.lits()
+    ctx.run_step('ntt_cfg', ctx.bins['ntt_cfg'], ['--prop', prop, '--lits', ctx.lits_arg()], timeout=max(60, ctx.time_left()))
     ctx.stats['traces_validated_against_impl'] = ctx.stats.get('transitions', 0)
